@@ -501,6 +501,9 @@ func c02Stmts(c *core.Ctx) {
 			}
 		}
 		gen.Layouts(toks, kk, gg, func(src string, devs []gen.Dev) {
+			if c.Tick() {
+				return
+			}
 			c.Cur(src)
 			c.Inc("reference_parses")
 			gs, _, ok := ref.GShape(src)
